@@ -172,8 +172,25 @@ func scenarioC19(r *Run) {
 		}
 		return rs
 	}
+	// values the application took out of a destination by plain assignment
+	// (`job := *msg`, a shallow copy sharing slices and maps) before the
+	// destination was decoded into again: an earlier result stays what it was
+	type keptCopy struct {
+		src  *c19Dest
+		val  any
+		snap string
+	}
+	var kept []*keptCopy
 	checkAll := func(after string) bool {
 		rs := ranges()
+		for _, k := range kept {
+			r.Check()
+			if now := Snapshot(k.val); now != k.snap {
+				r.Fail("earlier-decoded-value-changed-by-later-operation/"+k.src.dec.Name+"/after-"+opClass(after),
+					"a value copied out of the %s destination (plain struct assignment) before that destination was used again differs after %s from what it was when it was taken\n%s", k.src.dec.Name, after, diffSnapshot(k.snap, now))
+				return false
+			}
+		}
 		for _, d := range dests {
 			r.Check()
 			want := d.dec.New()
@@ -269,6 +286,12 @@ func scenarioC19(r *Run) {
 				d.decodes++
 				d.model = pristine
 				d.good, d.dirty = Snapshot(d.val), false
+				if len(kept) < 6 && t.Bool(1, 3, "c19.keep") {
+					cp := reflect.New(reflect.TypeOf(d.val).Elem())
+					cp.Elem().Set(reflect.ValueOf(d.val).Elem())
+					kept = append(kept, &keptCopy{src: d, val: cp.Interface(), snap: Snapshot(cp.Interface())})
+					r.Fired("app.keeps-shallow-copy")
+				}
 			} else {
 				if d.decodes > 0 {
 					interesting = true
@@ -322,6 +345,16 @@ func scenarioC19(r *Run) {
 			}
 			d := cands[t.Choose(len(cands), "c19.mutate.dest")]
 			if c19Mutate(t, d.val) {
+				// (copies taken from this destination share its maps and
+				// slices: the application's own edit shows in them, by design)
+				n := 0
+				for _, k := range kept {
+					if k.src != d {
+						kept[n] = k
+						n++
+					}
+				}
+				kept = kept[:n]
 				d.dirty = true
 				interesting = true
 				r.Op("MUTATE", "%s (application edits its decoded copy)", d.dec.Name)
